@@ -19,8 +19,8 @@ warnings.simplefilter('ignore')
 FUNCTIONS_ENCODED = ['pgpy.pgp.PGPKey.parse', 'pgpy.pgp.PGPKey.__or__', 'pgpy.pgp.PGPUID.__or__', 'pgpy.pgp.PGPKey.__bytearray__', 'pgpy.pgp.PGPKey.__copy__', 'pgpy.pgp.PGPUID.__copy__',
                      'pgpy.pgp.PGPSignature.__copy__', 'pgpy.pgp.PGPSignature.exportable', 'pgpy.types.SorteDeque.insort']
 STUBS = ['signatures are made by the real API with the primitive replaced by the oracle (their integers are not checked here: "still verifying" is C01/C15)']
-OUTSIDE = ['packet contents are concrete (two primaries, two user ids, one attribute, two subkeys, seven signatures); sequences longer than the stated bound',
-           'armored form', 'embedded cross-signatures (the menu\'s binding signatures carry none)']
+OUTSIDE = ['packet contents are concrete (two primaries, two user ids, one attribute, two subkeys, eleven signatures); sequences longer than the stated bound',
+           'armored form of the symbolic shapes (O14.3 covers the fixture key only; base64 is C code)', 'embedded cross-signatures (the menu\'s binding signatures carry none)']
 ASSUMPTIONS = ['RFC 4880 11.1: a signature belongs to the key / user id / attribute / subkey packet that most recently precedes it; trust packets are local and ignored']
 
 T1 = datetime.fromtimestamp(1_600_000_001, timezone.utc)
@@ -103,10 +103,10 @@ def make_menu():
         # a certification whose hashed area is not minimally encoded, and a revocation marked non-exportable (as GnuPG's lsign + revsig leaves them)
         ('sig', rebuild_sig(_pkt_bytes(third), long_form_first_subpacket)), ('sig', rebuild_sig(_pkt_bytes(rev), lambda a: bytes([2, 4, 0]) + a)),
     ]
-    return _pkt_bytes(pubA._key), menu, str(pubA.fingerprint), str(pubB.fingerprint)
+    return _pkt_bytes(pubA._key), menu, str(pubA.fingerprint), str(pubB.fingerprint), A
 
 
-PRIMARY_A, MENU, FPR_A, FPR_B = make_menu()
+PRIMARY_A, MENU, FPR_A, FPR_B, A_KEY = make_menu()
 NM = len(MENU)
 NONEXPORTABLE = {MENU[8][1], MENU[18][1]}
 
@@ -246,5 +246,48 @@ def key_shape_opaque_sig(i0: int, i2: int) -> bool:
         return check_shape([out[0], 16, out[1]])
 
 
-SANITY = ['key_shape(1, 0, 0, 0, 0)', 'key_shape(2, 0, 6, 0, 0)', 'key_shape(3, 0, 6, 7, 0)', 'key_shape(3, 0, 8, 7, 0)', 'key_shape(4, 0, 6, 3, 10)', 'key_shape(4, 5, 0, 5, 6)',
+# ------------------------------------------------------------------------------------ O14.3 armored form
+from pgpy.types import Armorable as _Arm
+CRCS = (0, 1, 0xFF, 0x100, 0xFFFF, 0x10000, 0xABCDEF, 0xFFFFFF, None)
+_REAL_CRC24 = _Arm.__dict__['crc24']
+
+
+def _armored_case(ci, private):
+    """export / import through the armored form with the CRC-24 of the payload forced to a chosen value (None: the real one): the value is what it is -
+    one key in 256 has a checksum with a leading zero octet"""
+    forced = CRCS[ci]
+    if forced is not None:
+        _Arm.crc24 = staticmethod(lambda data: forced)
+    try:
+        key = A_KEY if private else A_KEY.pubkey
+        text = str(key)
+        lines = text.split('\n')
+        crcline = [l for l in lines if l.startswith('=')]
+        if len(crcline) != 1 or len(crcline[0]) != 5 or any(len(l) > 76 for l in lines):
+            return False
+        back, rest = PGPKey.from_blob(text)
+        others = [k for k in rest.values() if k is not back]
+        return not others and bytes(back.__bytearray__()) == bytes(key.__bytearray__()) and str(back.fingerprint) == FPR_A and back.is_public == key.is_public
+    finally:
+        _Arm.crc24 = _REAL_CRC24
+
+
+@ob('O14.3', 'the armored export of a key imports to the same key whatever the CRC-24 of its octets happens to be (leading zero octets included): the checksum line is always '
+             'four radix-64 characters', 'CRC-24 forced by symbolic index from {0, 1, FF, 100, FFFF, 10000, ABCDEF, FFFFFF, the real value}; public or private key; native per path',
+    cond_timeout={'q': 200, 't': 600})
+def armored_roundtrip_crc(ci: int, private: bool) -> bool:
+    """
+    pre: 0 <= ci < 9
+    post: _
+    """
+    c = 0
+    for k in range(9):
+        if ci == k:
+            c = k
+    pv = True if private else False
+    with native():
+        return _armored_case(c, pv)
+
+
+SANITY = ['armored_roundtrip_crc(%d, %s)' % (c, p) for c in range(9) for p in (True, False)] + ['key_shape(1, 0, 0, 0, 0)', 'key_shape(2, 0, 6, 0, 0)', 'key_shape(3, 0, 6, 7, 0)', 'key_shape(3, 0, 8, 7, 0)', 'key_shape(4, 0, 6, 3, 10)', 'key_shape(4, 5, 0, 5, 6)',
           'key_shape(3, 13, 0, 6, 0)', 'key_shape(4, 0, 6, 13, 7)', 'key_shape(4, 1, 12, 9, 8)', 'key_shape(2, 11, 2, 0, 0)', 'key_shape(4, 3, 10, 4, 10)', 'key_shape(3, 6, 7, 8, 0)', 'key_shape(1, 14, 0, 0, 0)', 'key_shape(2, 15, 6, 0, 0)', 'key_shape(2, 1, 8, 0, 0)', 'key_shape(2, 0, 17, 0, 0)', 'key_shape(2, 1, 18, 0, 0)', 'key_shape(3, 0, 18, 17, 0)', 'key_shape(2, 0, 16, 0, 0)', 'key_shape(3, 3, 16, 6, 0)', 'key_shape_opaque_sig(13, 0)']
